@@ -7,7 +7,8 @@
     Cdef!Obs, so that TLC can compare it with the specification (Trace_Cdef*.tla),
   * extraction of behaviours from a TLC `-dump dot,actionlabels` graph.
 
-A type term is a nested list mirroring the TLA+ tuples:
+A type term is a nested list mirroring the TLA+ tuples (a field may also have the type
+["anon", kind, fields]: an anonymous struct/union defined in place):
   ["void"] ["prim", name] ["td", name] ["file"] ["struct"|"union"|"enum", tag]
   ["ptr", t] ["arr", t, n]  (n = -1: open)   ["fnp", res, [args], ellipsis]
 An action is a dict {"a": name, ...} with the argument names of the TLA+ action.
@@ -39,10 +40,10 @@ ARGNAMES = {
     "DeclGlobal": ("n", "t"),
     "Include": ("k",),
     # C12 mutations
-    "MutateField": ("kind", "tag", "i", "t"),
+    "MutateField": ("kind", "tag", "how", "i", "arg"),
     "MutateConst": ("n", "val"),
     "MutateEnumerator": ("tag", "i", "val"),
-    "AddDots": ("kind", "tag"),
+    "AddDots": ("what", "item"),
 }
 
 
@@ -68,6 +69,11 @@ def sus_of(t):
         out = sus_of(t[1])
         for a in t[2]:
             out += sus_of(a)
+        return out
+    if k == "anon":          # ["anon", kind, fields]: anonymous aggregate defined in place
+        out = []
+        for f in t[2]:
+            out += sus_of(f[1])
         return out
     return []
 
@@ -132,6 +138,8 @@ def base_and_decl(t, inner):
         return "FILE", inner
     if k in ("struct", "union", "enum"):
         return "%s %s" % (k, t[1]), inner
+    if k == "anon":
+        return "%s { %s }" % (t[1], fields_text(t[2])), inner
     if k == "ptr":
         sub = t[1]
         d = "*" + inner
